@@ -1165,19 +1165,51 @@ func c10RunChunk(c *lib.Ctx, lines []string) []c10Mismatch {
 	}
 	var model, impl []string
 	var errM, errI error
+	runWorker := func(ls []string) ([]string, error) {
+		cmd := exec.Command(os.Args[0], "C10", "--root", c.Root)
+		cmd.Env = append(os.Environ(), "VH_C10_WORKER=1")
+		return c10Pipe(cmd, ls)
+	}
 	var wg sync.WaitGroup
 	wg.Add(2)
 	go func() {
 		defer wg.Done()
-		model, errM = c10Pipe(exec.Command(c.ModelBin), mlines)
+		// the model driver is deterministic: a failure is the machine (fork, memory), try again
+		for try := 0; try < 3; try++ {
+			if model, errM = c10Pipe(exec.Command(c.ModelBin), mlines); errM == nil {
+				break
+			}
+		}
 	}()
 	go func() {
 		defer wg.Done()
-		cmd := exec.Command(os.Args[0], "C10", "--root", c.Root)
-		cmd.Env = append(os.Environ(), "VH_C10_WORKER=1")
-		impl, errI = c10Pipe(cmd, lines)
+		for try := 0; try < 3; try++ {
+			if impl, errI = runWorker(lines); errI == nil {
+				break
+			}
+		}
 	}()
 	wg.Wait()
+	if errM == nil && errI != nil {
+		// The single-threaded worker failed three times on this chunk: a history that terminates
+		// the interpreter process is a failing input, not a machinery error. Locate it by bisection.
+		lo, hi := 0, len(lines)
+		for 1 < hi-lo {
+			mid := (lo + hi) / 2
+			if _, err := runWorker(lines[lo:mid]); err != nil {
+				hi = mid
+			} else if _, err := runWorker(lines[mid:hi]); err != nil {
+				lo = mid
+			} else {
+				break // only fails in the company of the other half
+			}
+		}
+		if hi-lo == 1 {
+			if _, err := runWorker(lines[lo:hi]); err != nil {
+				return []c10Mismatch{{lines[lo], "crash " + strings.ReplaceAll(strings.SplitN(err.Error(), "\n", 2)[0], " ", "_"), "ok"}}
+			}
+		}
+	}
 	if errM != nil || errI != nil {
 		fmt.Fprintf(os.Stderr, "C10: chunk failed: model: %v worker: %v\n", errM, errI)
 		os.Exit(2)
@@ -2521,6 +2553,15 @@ func (w *c10World) report(c *lib.Ctx, seen map[string]bool, family string, sweep
 	if !ok {
 		return
 	}
+	if strings.HasPrefix(m.impl, "crash ") {
+		c.Ev.Count("disagreements", 1)
+		if !seen["aspect=worker-crash"] {
+			seen["aspect=worker-crash"] = true
+			c.Report(fmt.Sprintf("args=%d aspect=worker-crash", h.n), sweep, map[string]any{"family": family, "history": m.line, "input": w.forms("g", h),
+				"observed": "the process evaluating this history terminated (three times in a row, then alone): " + m.impl, "expected": "every operation returns"})
+		}
+		return
+	}
 	idx, iw, mw, bad := w.firstDiff(h, m.impl, m.model)
 	if !bad {
 		return
@@ -2772,6 +2813,40 @@ func runC10(c *lib.Ctx) {
 			}
 		}
 		fams = append(fams, c10Family{name: "sweep:bare-parameter", label: "sweep:bare-parameter", sweep: true, count: len(hs),
+			gen: func(i int) c10Hist { return hs[i] }})
+	}
+	{
+		// spelling sweep: methods given as :method options of defgeneric (each qualifier, two
+		// specializer tuples, 1–3 arguments), then replaced by defmethod and removed
+		var hs []c10Hist
+		for n := 1; n <= 3; n++ {
+			for _, q := range "pbar" {
+				for k := 1; k <= 3; k++ {
+					spec := make([]int, n)
+					for i := range spec {
+						spec[i] = w.classID["c10a"]
+					}
+					gen := make([]int, n) // all t
+					arg := make([]int, n)
+					for i := range arg {
+						arg[i] = w.classID["c10c"]
+					}
+					hs = append(hs, c10Hist{n: n, inGeneric: k, ops: []c10Op{
+						{kind: 'd', qual: byte(q), key: spec, id: 11, mode: 'g'},
+						{kind: 'd', qual: 'p', key: gen, id: 12, mode: 's', bare: n == 2},
+						{kind: 'd', qual: byte(q), key: gen, id: 13, mode: 'g'},
+						{kind: 'c', key: arg},
+						{kind: 'm', key: arg},
+						{kind: 'd', qual: byte(q), key: spec, id: 14, mode: 'g'},
+						{kind: 'c', key: arg},
+						{kind: 'r', qual: byte(q), key: spec},
+						{kind: 'c', key: arg},
+						{kind: 'm', key: arg},
+					}})
+				}
+			}
+		}
+		fams = append(fams, c10Family{name: "sweep:defgeneric-method-option", label: "sweep:defgeneric-method-option", sweep: true, count: len(hs),
 			gen: func(i int) c10Hist { return hs[i] }})
 	}
 	{
